@@ -101,7 +101,10 @@ func (fc *FnCtx) callModTargets(st *State, call *ast.CallExpr, stableBase func(a
 	case "(*sync.Once).Do":
 		return []modTarget{{"$oncedone", ""}, {"*", ""}}
 	}
-	c, home, homePkg, _ := fc.eng.lookupContract(callee)
+	c, home, homePkg, lkey := fc.eng.lookupContract(callee)
+	if lc := fc.cs.Funcs["extern "+lkey]; lc != nil {
+		c, home = lc, fc.cs
+	}
 	if c == nil {
 		return nil // effect-free allow-list or error reported when the call is executed
 	}
